@@ -853,6 +853,40 @@ def _std_prefix(uri):
     return _STD_PREFIX.get(uri)
 
 
+def merged_with_xml_base(main: bytes, files: dict) -> bytes:
+    """The document the finding says the lxml handler effectively reads with process_xinclude=True: every xi:include
+    element replaced by the root element of the named part (its tail kept), and `xml:base="<href>"` added to that root
+    when the part lies in another directory than the including document.  Put together as text (every document is
+    printed by itself, with all its declarations, and pasted in place of the include element) so that nothing is
+    cleaned up on the way."""
+    from lxml import etree
+
+    inc = "{%s}include" % XI_NS
+    counter = [0]
+
+    def text_of(data, here, xml_base):
+        root = etree.fromstring(data)
+        if xml_base is not None:
+            root.set("{http://www.w3.org/XML/1998/namespace}base", xml_base)
+        subs = {}
+        for el in list(root.iter(inc)):
+            href = el.get("href")
+            name = here + href
+            sub_dir = name.rsplit("/", 1)[0] + "/" if "/" in name else ""
+            counter[0] += 1
+            mark = "c09-include-%d" % counter[0]
+            subs[mark] = text_of(files[name], sub_dir, href if "/" in href else None)
+            ph = etree.Element(mark)
+            ph.tail = el.tail
+            el.getparent().replace(el, ph)
+        out = etree.tostring(root, encoding="unicode")
+        for mark, sub in subs.items():
+            out = out.replace("<%s/>" % mark, sub)
+        return out
+
+    return text_of(main, "", None).encode("utf-8")
+
+
 def prefixes_forgotten(main: bytes, files: dict) -> bytes:
     """The document the finding says the native handler effectively reads with process_xinclude=True: the includes
     resolved by the standard library (ElementTree + ElementInclude, which keep no prefix declarations, comments or
@@ -868,6 +902,7 @@ def prefixes_forgotten(main: bytes, files: dict) -> bytes:
         with open(os.path.join(d, "main.xml"), "wb") as f:
             f.write(main)
         for name, content in files.items():
+            os.makedirs(os.path.dirname(os.path.join(d, name)), exist_ok=True)
             with open(os.path.join(d, name), "wb") as f:
                 f.write(content)
         root = ET.parse(os.path.join(d, "main.xml")).getroot()
@@ -948,20 +983,15 @@ def oracle_covered(a, msg):
 
     def explain(k):
         if k == "new/lxml" and a["xinclude"] and any("/" in name for name in a["files"]):
-            # libxml2 adds xml:base to a root included from another directory: fine once the parts lie next to the main file
-            flat = dict(a)
-            flat["files"] = {name.split("/")[-1]: v for name, v in a["files"].items()}
-            enc = a.get("encoding", "utf-8")
-            enc = "utf-16" if enc.startswith("utf-16") else enc
-            text = unb64(a["doc"]).decode(enc).replace('href="sub/', 'href="').replace("href='sub/", "href='")
-            data = unb64(a["doc"])
-            if enc == "utf-16":
-                new = (b"\xfe\xff" + text.encode("utf-16-be")) if data[:2] == b"\xfe\xff" else (b"\xff\xfe" + text.encode("utf-16-le"))
-            else:
-                new = text.encode(enc)
-            flat["doc"] = b64(new)
-            if m(four_results(flat)[k]) == m(ref):
-                return "c09-lxml-xinclude-xml-base"
+            # libxml2's base URI fixup: the finding covers the result only if it is what the lxml handler makes of the
+            # merged document with exactly that attribute added (xml:base = the href) to every root element that was
+            # included from another directory — put together here with plain lxml tree operations, no xinclude()
+            try:
+                want = py_eq_canon(real_parse(u, a["clazz"], merged_with_xml_base(unb64(a["doc"]), files), "lxml", a["config"]))
+                if want == r[k]:
+                    return "c09-lxml-xinclude-xml-base"
+            except Exception:  # noqa: BLE001
+                pass
         if k == "new/native" and a["xinclude"]:
             # with process_xinclude the native handler walks an ElementTree and invents the prefixes: documents whose
             # content uses prefixes (QName values, xsi:type, name-like wildcard attribute values) are affected, also
